@@ -117,7 +117,7 @@ Proof.
   split; [|split].
   - exists (param_size st f addr).
     split; [destruct (inl_chain f addr); [destruct (rm_get (fn_lines f) addr)|]; reflexivity|].
-    unfold param_size. destruct (sr_fd _ _ _ Hrel) as [wl1 [P1 E1]]. destruct (sr_fpo _ _ _ Hrel) as [wl2 [P2 E2]].
+    unfold param_size. destruct (sr_fd _ _ _ Hrel) as [wl1 [_ [P1 E1]]]. destruct (sr_fpo _ _ _ Hrel) as [wl2 [_ [P2 E2]]].
     destruct (rm_get (st_win_fd st) addr) as [w|] eqn:G1.
     + rewrite E1 in G1. eapply win_lookup in G1; [|eassumption]. destruct G1 as (w0 & A & B & C).
       right. exists w0. split; [apply in_or_app; left; assumption|]. split; [assumption|assumption].
